@@ -1,13 +1,13 @@
 import PySMT.Proofs.C07Ops
 import PySMT.Proofs.C07Decls
 import PySMT.Proofs.C07Example
-import PySMT.Proofs.C07Dag
+import PySMT.Proofs.C07DagSound
 /-!
 # C07 — SMT-LIB export is well-formed and denotes the same thing: property theorems
 
 Model: `Impl/Printer.lean` (`toSexp` = `SmtPrinter`, `toSexpDag` = `SmtDagPrinter`, `scriptOfFormula`); specification:
 `Spec/Sexp.lean` (SMT-LIB 2.6 lexicon) and `Spec/SmtlibText.lean` (`readStd`, `runStd`: the standard's reading);
-hypotheses: `Impl/PrinterHyp.lean` (`Printable` = WT ∧ NamesOK ∧ Normal, `ScriptOK`, `avOrdered`).
+hypotheses: `Impl/PrinterHyp.lean` (`Printable` = WT ∧ NamesOK ∧ Normal, `ScriptOK`, `avGuard`, `noQuant`).
 -/
 namespace PySMT.C07
 open PySMT PySMT.Printer PySMT.Std PySMT.Sexp
@@ -43,27 +43,46 @@ theorem read_toSexp (env : SEnv) (t : Term) (h : Printable env [] t = true) :
 
 /-- Tree printing is sound: the printed text, read with the standard's semantics, has the formula's sort and, under
 every interpretation, the formula's value.
-`_partial`: `avOrdered` (an array value with ≥ 2 assignments lists them in the order the printed store chain applies
-them — commutation of stores on distinct keys is not proved); `Printable` excludes parametric sort instances and the
-known findings F10 (integer `/`), F11, F44 (`pow`), F45 (names with `|` `\\`), F46 (non-ASCII / `\\u` strings). -/
-theorem print_sound_partial (env : SEnv) (t : Term) (h : Printable env [] t = true) (ho : avOrdered t = true) :
+`_partial` only in the hypotheses: `Printable` excludes parametric sort instances and the known findings F10 (integer `/`),
+F11, F44 (`pow`), F45 (names with `|` `\\`), F46 (non-ASCII / `\\u` strings); `avGuard` is the natural guard on array
+values (keys pairwise different constants of a non-array index sort, what `FormulaManager.Array` builds) under which the
+order of the printed stores does not matter (`Proofs/SimpArrayVal.lean`). -/
+theorem print_sound_partial (env : SEnv) (t : Term) (h : Printable env [] t = true) (hg : avGuard t = true) :
     ∃ t' τ, readStdTy env [] (toSexp t) = .ok (t', τ) ∧ t.typeOf = some τ ∧ ∀ I, eval I t' = eval I t :=
-  Printer.print_sound_partial env t h ho
+  Printer.print_sound_partial env t h hg
+
+/-- The standard's reading of the DAG printer's output is the formula itself (array values as store chains in argument
+order), for quantifier-free formulas: every `let` right-hand side is read, under the bindings so far, as the sub-formula it
+was printed for (memoization invariant of the work-stack machine), no generated name captures a user symbol, the stack is
+empty within the fuel and the key is the root. -/
+theorem read_toSexpDag (env : SEnv) (t : Term) (h : Printable env [] t = true) (hq : noQuant t = true) :
+    readStdTy env [] (toSexpDag t) = .ok (unfoldAVw false t, tyD t) :=
+  readStd_toSexpDag env t (dagOK_of_printable' env t h hq)
+
+/-- DAG printing is sound for quantifier-free formulas: sort and value of the formula under every interpretation.
+`_partial`: formulas with quantifiers (whose bodies are printed by nested printers) are covered by the structure theorem
+`printDag_chain_partial` and by K/S only; hypotheses as for `print_sound_partial`. -/
+theorem printDag_sound_partial (env : SEnv) (t : Term) (h : Printable env [] t = true) (hq : noQuant t = true)
+    (hg : avGuard t = true) :
+    ∃ t' τ, readStdTy env [] (toSexpDag t) = .ok (t', τ) ∧ t.typeOf = some τ ∧ ∀ I, eval I t' = eval I t :=
+  printDag_sound env t h hq hg
 
 /-- The script of a formula is accepted by the strict interpreter (declared before use, declared once), its
 declarations are exactly the formula's sorts and free symbols, its only assertion is the formula.
-`_partial`: plain declared sorts only; tree form of the assertion. -/
+`_partial`: plain declared sorts only. -/
 theorem decls_before_use_partial (logic : String) (t : Term) (h : ScriptOK logic t = true) :
     ∃ st, runStd (scriptOfFormula logic false t) = .ok st ∧ st.env = scriptEnv logic t ∧ st.live = [unfoldAV t] ∧
       (∀ s ∈ t.fv, s ∈ st.env.funs) := Printer.decls_before_use_partial logic t h
 
-/-- DAG printing, structure and let-freshness: `toSexpDag t` is a chain of single-binding `let`s over generated names
-`.def_k`, none of which is the quoted name of a free symbol of `t` (no user symbol is captured), and the standard reads it
-binding by binding (each right-hand side in the scope of the earlier bindings, the key in the scope of all).
-`_partial`: that each right-hand side reads as the sub-formula it was printed for (the memoization invariant of the
-work-stack machine, incl. nested printers for quantifier bodies) is not proved — K (`cmp_print dag`) and S (`chk_print` on
-the DAG text, `chk_script`) check it on every generated formula. -/
-theorem printDag_sound_partial (t : Term) :
+/-- … the same for the DAG form of the assertion (the default of `serialize`), quantifier-free formulas. -/
+theorem decls_before_use_dag_partial (logic : String) (t : Term) (h : ScriptOK logic t = true) (hq : noQuant t = true) :
+    ∃ st, runStd (scriptOfFormula logic true t) = .ok st ∧ st.env = scriptEnv logic t ∧ st.live = [unfoldAVw false t] ∧
+      (∀ s ∈ t.fv, s ∈ st.env.funs) := Printer.decls_before_use_dag_partial logic t h hq
+
+/-- DAG printing with quantifiers, structure and let-freshness: `toSexpDag t` (any `t`) is a chain of single-binding `let`s
+over generated names `.def_k`, none of which is the quoted name of a free symbol of `t`, and the standard reads it binding
+by binding. `_partial`: for formulas with quantifiers the reading of each right-hand side is checked by K/S only. -/
+theorem printDag_chain_partial (t : Term) :
     ∃ (binds : List (String × Sexp)) (key : Sexp),
       toSexpDag t = letWrap (binds.map (fun b => (Sexp.atom b.1, b.2))) key ∧
       (∀ b ∈ binds, ∃ k, b.1 = defName k ∧ b.1 ∉ t.fv.eraseDups.map (fun s => pyQuote s.name)) ∧
@@ -77,9 +96,10 @@ recursion, so the instances are unfolded by hand rather than `decide`d) -/
 
 section
 /-- the hypotheses of `decls_before_use_partial` (hence of `read_toSexp`, `print_sound_partial`) hold for
-`t1 = (<= |x y| (- 5))` in `QF_LIA` (`Proofs/C07Example.lean`) -/
-example : ScriptOK "QF_LIA" t1 = true ∧ Printable (scriptEnv "QF_LIA" t1) [] t1 = true ∧ avOrdered t1 = true :=
-  ⟨scriptOK_t1, pr_t1 _ (by simp [scriptEnv, fv_t1, SEnv.lookupFun, x]) (by decide), avOrdered_t1⟩
+`t1 = (<= |x y| (- 5))` in `QF_LIA` (`Proofs/C07Example.lean`), likewise those of the DAG theorems -/
+example : ScriptOK "QF_LIA" t1 = true ∧ Printable (scriptEnv "QF_LIA" t1) [] t1 = true ∧ avGuard t1 = true
+    ∧ noQuant t1 = true :=
+  ⟨scriptOK_t1, pr_t1 _ (by simp [scriptEnv, fv_t1, SEnv.lookupFun, x]) (by decide), avGuard_t1, noQuant_t1⟩
 /-- the hypothesis of `render_read` -/
 example : Sexp.WF (.list [.atom "<=", .atom "x y", .list [.atom "-", .atom "5"], .str "a\"b", .atom "|12|", .atom "#b01"]) = true := by
   decide +kernel
